@@ -18,7 +18,7 @@ META = {
     'C05': ('fault_enumeration', '3 C05', 'generated (pre-state, same-handle warm-up calls, operation) cases x EVERY I/O event of the operation as kill point: the post-kill disk image is photographed before each event (+ torn writes), cross-checked against real fork+_exit kills; raw reader + fresh handle oracle'),
     'C06': ('fault_enumeration', '3 C06', 'as C05 with the power-loss image (every file reverted to its last fsynced content, directory operations and committed transactions kept) built at every I/O event and after the call returned'),
     'C07': ('exploration', '3 C07', 'generated read/seek/tell programs in lock-step against an in-memory reference; exhaustive short programs'),
-    'C08': ('exploration', '3 C08', 'model-based testing over multi-handle sequential histories with queries as steps vs dict model'),
+    'C08': ('exploration', '3 C08', 'model-based testing over multi-handle sequential histories with queries as steps (incl. a pack by another handle between two yields of a bulk iteration) vs dict model'),
     'C09': ('exploration', '3 C09', 'generated histories biased to repeated contents; raw-reader invariants on copies, unreferenced bytes and pack growth'),
     'C10': ('exploration', '3 C10', 'generated pack/repack mode chains vs model + raw-row bookkeeping oracle'),
     'C11': ('exploration', '3 C11', 'generated histories with deletions and repacks vs model + raw pack-layout oracle'),
